@@ -413,8 +413,11 @@ def aqua_short_arc(chk, prog):
     interpolation follows the short arc -- towards the measured direction -- only if the delta quaternion's scalar part is >= 0;
     every vector handed to slerp_I must therefore have a provably non-negative first component on every arm that builds it."""
     from sa.interval import Intervals
-    for meth, want in (("updateIMU", 1), ("updateMARG", 2)):
-        f = prog.func(F + "aqua.py::AQUA." + meth)
+    cls = prog.cls(F + "aqua.py::AQUA")
+    total = 0
+    for f in cls.methods.values():
+        if not any(isinstance(c, ast.Call) and ast.unparse(c.func).split(".")[-1] == "slerp_I" for c in ast.walk(f.node)):
+            continue
         chk.touch(f)
         seen = []
 
@@ -427,6 +430,7 @@ def aqua_short_arc(chk, prog):
             prev = uniq.get(c.lineno)
             uniq[c.lineno] = (c, b if prev is None or prev[1] is None or b is None else (min(prev[1][0], b[0]), max(prev[1][1], b[1])))
         for c, b in uniq.values():
+            total += 1
             site = "%s::%s" % (f.ref, ast.unparse(c)[:60])
             if b is not None and b[0] >= 0:
                 chk.record("SHORT-ARC", site, "scalar part of the delta quaternion lies in [%g, %g]" % b)
@@ -435,8 +439,8 @@ def aqua_short_arc(chk, prog):
                       "way round and the correction turns the estimate away from the measured direction" % (ast.unparse(c.args[0]), b)
                 chk.record("SHORT-ARC", site, "scalar part of the delta quaternion is non-negative on every arm", verdict="VIOLATION", detail=why)
                 chk.finding("SHORT-ARC", f.module.rel, f.qname, "slerp_I(%s, ...)" % ast.unparse(c.args[0]), why, line=c.lineno)
-        if len(uniq) < want:
-            chk.error("SHORT-ARC: %s has %d slerp_I calls, %d confirmed by hand" % (f.ref, len(uniq), want))
+    if total < 2:
+        chk.error("SHORT-ARC: class AQUA has %d slerp_I calls with a named delta quaternion, at least 2 confirmed by hand" % total)
 
 
 def canaries(chk, prog):
